@@ -658,6 +658,75 @@ def _member_iterations(fnode, attr):
     return out
 
 
+def check_marker_for_not_bound(repo, rep, mod):
+    """R17i: when a context asks another layer for a variable, "that layer
+    does not bind it" must be told apart from every value the variable can
+    have -- null included, and the caller's own default included: the
+    probing default handed to the inner get_data() is a private marker
+    constant (utils.NO_VALUE), and it is that marker the answer is compared
+    with.  Probing with None or with the caller's `default` makes a layer
+    that binds the variable to null (or to the default) invisible, so an
+    outer binding shows through an inner one."""
+    n = 0
+    for ci in mod.classes.values():
+        m = ci.methods.get('get_data')
+        if m is None:
+            continue
+        m2 = norm.inline_tail_calls(repo, m)
+        ps = set(m2.params())
+        for c in model.calls_in(m2.node):
+            if not (isinstance(c.func, ast.Attribute) and
+                    c.func.attr == 'get_data'):
+                continue
+            if isinstance(c.func.value, ast.Name) and \
+                    c.func.value.id == m2.params()[0]:
+                continue
+            par = getattr(c, '_parent', None)
+            # a probe: its answer is tested before it is used
+            tested = None
+            nm = None
+            if isinstance(par, ast.Assign) and len(par.targets) == 1 and \
+                    isinstance(par.targets[0], ast.Name):
+                nm = par.targets[0].id
+                for x in ast.walk(m2.node):
+                    if isinstance(x, ast.Compare) and isinstance(
+                            x.left, ast.Name) and x.left.id == nm and \
+                            len(x.ops) == 1 and isinstance(
+                                x.ops[0], (ast.Is, ast.IsNot, ast.Eq,
+                                           ast.NotEq)):
+                        tested = x
+            if tested is None:
+                continue      # `return parent.get_data(name, default)`
+            n += 1
+            kw = {k.arg: k.value for k in c.keywords}
+            probe = c.args[1] if len(c.args) > 1 else kw.get('default')
+            marker = tested.comparators[0]
+
+            def is_marker(e):
+                if e is None:
+                    return False
+                if isinstance(e, ast.Constant):
+                    return False
+                if isinstance(e, ast.Name) and e.id in ps:
+                    return False
+                d = repo.resolve(mod, e, model.scope_locals(m))
+                return bool(d) and d.rsplit('.', 1)[-1].isupper()
+            ok = is_marker(probe) and is_marker(marker) and \
+                model.norm(probe) == model.norm(marker)
+            rep.ob('R17i', '%s/probe[%s]' % (m.key, model.norm(
+                c.func.value)), ok,
+                '%s.get_data probes another layer with the default `%s` '
+                'and compares the answer with `%s`: "not bound there" must '
+                'be a private marker (utils.NO_VALUE) on both sides, '
+                'otherwise a layer that binds the variable to null / to the '
+                'caller\'s default is skipped and an outer binding shows '
+                'through' % (ci.node.name, model.norm(probe) if probe
+                             is not None else 'None (implicit)',
+                             model.norm(marker)),
+                loc=mod.loc(c), construct=model.norm(par).split('\n')[0])
+    rep.floor('layer probes in get_data', n, 3)
+
+
 def check_child_of_self(repo, rep, mod):
     """R17h: create_child_context() returns a context constructed *on the
     context itself*: its parent chain starts with the object it was asked
@@ -846,6 +915,9 @@ def run(repo, rep):
              'exclusive, appends non-empty layers in walk order')
     rep.rule('R17e', 'WRITES-GO-TO-THE-OWN-LAYER')
     rep.rule('R17f', 'MULTI IS A MERGE / LINKED IS A PROXY')
+    rep.rule('R17i', 'NOT-BOUND-IS-A-MARKER: a layer is probed with, and its '
+             'answer compared with, a private marker constant -- never None '
+             'or the caller\'s default')
     rep.rule('R17h', 'CHILD-OF-SELF: create_child_context() of every '
              'context class returns a context constructed on the context '
              'itself')
@@ -867,4 +939,5 @@ def run(repo, rep):
     check_reads_are_pure(repo, rep, mod)
     check_multi(repo, rep, mod)
     check_child_of_self(repo, rep, mod)
+    check_marker_for_not_bound(repo, rep, mod)
     rep.count(context_classes=len(CLASSES))
